@@ -127,7 +127,7 @@ def print_text(text, sp, guard_first, static=False, quoted=False):
     """one text run (no numbers) in a permitted spelling. guard_first: the first chunk must not be
     readable as a number / unit / preposition / remainder word (it follows an amount or starts a leaf)."""
     def dangerous(t):
-        return t[0].isdigit() or first_word(t) in DANGEROUS_FIRST or t[0] in "%*"
+        return t[0] in "0123456789" or first_word(t) in DANGEROUS_FIRST or t[0] in "%*"      # (digits of other scripts are letters to the grammar)
     # split at an inner [ \t]+ run into independently spelled chunks
     if sp.flip(0.3) and not quoted:
         idxs = [i for i in range(1, len(text) - 1) if text[i] in " \t" and text[i - 1] not in " \t"]
@@ -485,6 +485,9 @@ def _leaf(name, amt=None):
 
 # minimised past failures (of seeded changes), as abstract descriptions; run first by every compile-based check
 CORPUS = [
+    # digits of other scripts are ordinary text: a name may start with them, and they are never an amount
+    [[(None, False, ('leaf', None, ('\uff14 seasons mix',))), (None, False, ('step', ('sift',), [('leaf', None, ('\uff11\uff10\uff10g flour',)), ('leaf', ('qty', 2, None, '', ''), ('\u0664 spice',))]))]],
+    [[([('rolls of \uff14cm',)], False, ('step', ('shape',), [('leaf', ('qty', 500, 'g', '', ''), ('dough',))])), (None, False, ('step', ('bake',), [('leaf', None, ('rolls of \uff14cm',))]))]],
     # a definition used twice by identical references, after an earlier definition was folded into it
     [[(None, False, _leaf("onion", ("qty", 1, None, "", ""))),
       ([("filling",)], False, ("step", ("mix",), [_leaf("mince", ("qty", 200, "g", "", "")), ("step", ("chop",), [_leaf("onion")])])),
